@@ -17,8 +17,10 @@ LEVEL_TEXT = ("For each of 11 setter entry points (item assignment, append, setd
               "forms) and 7 handler shapes served through Ombott.__call__, the real code is executed on a fully symbolic "
               "str value up to the stated length: z3 decides every branch, so inside the bound every value containing CR, LF "
               "or NUL at any position is refused and absent from the header list, and every accepted value is emitted as a "
-              "native str e with e.encode('latin1').decode('utf8') == value. Further queries: symbolic int/bool, None, floats "
-              "and eleven foreign value kinds per entry point; sequences of setters with 2-3 symbolic values (one emission per "
+              "native str e with e.encode('latin1').decode('utf8') == value; the same with the header absent, holding one "
+              "value, a list of two and a list of three values beforehand. Further queries: symbolic int/bool, None, floats "
+              "and seven foreign value kinds per entry point (also onto a header already holding a list); sequences of "
+              "setters with 2-3 symbolic values (one emission per "
               "value, in order); every subset of 14 header names in 3 groups x source-derived status set (204/304 entity "
               "headers withheld under their table spelling and under other spellings, everything else emitted once); "
               "Set-Cookie transcoding. Bounded: value length, number of values, enumerated entry points/shapes/names.")
@@ -195,7 +197,12 @@ def _expires(r, name, v):
     r.expires = v
 
 
-# tag -> (kind, header name, callable): 'set' mutates an existing response, 'new' constructs one
+def _pairs(name, olds):
+    return [(name, o) for o in olds]
+
+
+# tag -> (kind, header name, callable). 'set' mutates an existing response whose header `name` already holds the
+# values `olds` (put there by offer); 'new' constructs a response from `olds` and the offered value, in this order.
 ENTRIES = {
     "setitem": ("set", NAME, _setitem),
     "append": ("set", NAME, _append),
@@ -203,28 +210,40 @@ ENTRIES = {
     "attr-content_type": ("set", "Content-Type", _content_type),
     "attr-content_length": ("set", "Content-Length", _content_length),
     "attr-expires": ("set", "Expires", _expires),
-    "ctor-dict": ("new", NAME, lambda name, v: HTTPResponse("b", 200, {name: v})),
-    "ctor-pairs": ("new", NAME, lambda name, v: HTTPResponse("b", 200, [(KEEP, "kept"), (name, v)])),
-    "ctor-kw": ("new", NAME, lambda name, v: HTTPResponse("b", 200, **{name: v})),
-    "reinit-kw": ("set", NAME, lambda r, name, v: r.__init__("b", 200, **{name: v})),   # Response() takes no arguments
-    "httperror-kw": ("new", NAME, lambda name, v: HTTPError(500, "b", **{name: v})),
+    "ctor-dict": ("new", NAME, lambda name, v, olds: HTTPResponse("b", 200, {name: v})),     # one value per name only
+    "ctor-pairs": ("new", NAME, lambda name, v, olds: HTTPResponse("b", 200, [(KEEP, "kept")] + _pairs(name, olds) + [(name, v)])),
+    "ctor-kw": ("new", NAME, lambda name, v, olds: HTTPResponse("b", 200, _pairs(name, olds), **{name: v})),
+    "reinit-kw": ("new", NAME, lambda name, v, olds: _reinit(Response(), _pairs(name, olds), {name: v})),
+    "httperror-kw": ("new", NAME, lambda name, v, olds: HTTPError(500, "b", headers=_pairs(name, olds), **{name: v})),
 }
+# what each entry point means for the reference store
+REF_CALL = {"setitem": "setitem", "append": "append", "setdefault": "setdefault", "attr-content_type": "setitem",
+            "attr-content_length": "setitem", "attr-expires": "setitem", "ctor-dict": "append", "ctor-pairs": "append",
+            "ctor-kw": "append", "reinit-kw": "append", "httperror-kw": "append"}
+PRESTATE_ENTRIES = tuple(t for t in ENTRIES if t != "ctor-dict")
 DEEP_ENTRIES = ("setitem", "httperror-kw")     # longest values in the thorough tier
+OLDS = {"existing": ("old",), "list2": ("old1", "old2"), "list3": ("old1", "old2", "old3")}
 
 
-def offer(tag, value, old=None):
-    """-> (response or None, header name, exception or None); `old`: value the header already has ('set' entries)"""
+def _reinit(r, pairs, kw):
+    """Response() takes no arguments: the application re-initialises its response object instead"""
+    r.__init__("b", 200, pairs, **kw)
+    return r
+
+
+def offer(tag, value, olds=()):
+    """-> (response or None, header name, exception or None); `olds`: values the header already holds"""
     kind, name, fn = ENTRIES[tag]
     r = None
     try:
         if kind == "set":
             r = Response()
             r.headers[KEEP] = "kept"
-            if old is not None:
-                r.headers[name] = old
+            for o in olds:
+                r.headers.append(name, o)
             fn(r, name, value)
         else:
-            r = fn(name, value)
+            r = fn(name, value, olds)
     except Exception as e:
         return r, name, e
     return r, name, None
@@ -237,22 +256,36 @@ def leak_fault(r):
     return emitted_fault(r.headerlist, {})
 
 
+def verdict(tag, olds, r, name, exc, text, bad):
+    """oracle for one offer on a header holding `olds`: `text` is what the offered value stands for (None: the
+    statement defines no text for that kind), `bad` = the text contains CR/LF/NUL"""
+    if exc is not None:
+        return leak_fault(r)
+    unused = REF_CALL[tag] == "setdefault" and len(olds) > 0      # setdefault on a present header drops the value
+    if text is None:        # foreign type let through: whatever is emitted must still be safe
+        return emitted_fault(r.headerlist, {})
+    if bad and not unused:
+        return "%s (header holding %r) accepted a value whose text is %r" % (tag, olds, text)
+    ref = RefHeaders()
+    for o in olds:
+        ref.append(name, o)
+    getattr(ref, REF_CALL[tag])(name, text)
+    return emitted_fault(r.headerlist, ref.d)
+
+
 # ---------------------------------------------------------------- query makers: units
-def make_value(tag, n):
+def make_value(tag, n, olds=()):
     def q(v: str):
         assume(len(v) <= n)
         bad, wide = scan(v)
-        r, name, exc = offer(tag, v)
-        if bad:
-            if exc is None:
-                return "%s accepted the value %r" % (tag, v)
-            cover("rejected")
-            return leak_fault(r)
+        r, name, exc = offer(tag, v, olds)
         if exc is not None:
-            cover("clean-value-refused")     # tolerated, see LEVEL_NOTE
-            return leak_fault(r)
-        cover("accepted-non-ascii" if wide else "accepted")
-        return emitted_fault(r.headerlist, {name: [v]})
+            cover("rejected" if bad else "clean-value-refused")     # the latter is tolerated, see LEVEL_NOTE
+        elif bad:
+            cover("not-refused")
+        else:
+            cover("accepted-non-ascii" if wide else "accepted")
+        return verdict(tag, olds, r, name, exc, v, bad)
     return q
 
 
@@ -269,31 +302,6 @@ def make_value_ctl(tag, n):
             return "%s accepted the value %r" % (tag, v)
         cover("rejected")
         return leak_fault(r)
-    return q
-
-
-# what the header holds after a 'set' entry point is used on a header that already has one value
-REF_CALL = {"setitem": "setitem", "append": "append", "setdefault": "setdefault", "attr-content_type": "setitem",
-            "attr-content_length": "setitem", "attr-expires": "setitem"}
-
-
-def make_value_existing(tag, n):
-    def q(v: str):
-        assume(len(v) <= n)
-        bad, wide = scan(v)
-        r, name, exc = offer(tag, v, old="old")
-        ref = RefHeaders()
-        ref.setitem(name, "old")
-        if bad:
-            if exc is None and tag != "setdefault":
-                return "%s accepted the value %r" % (tag, v)
-            cover("rejected" if exc is not None else "ignored")     # setdefault does not use the value here
-        elif exc is not None:
-            cover("clean-value-refused")
-        else:
-            cover("accepted-non-ascii" if wide else "accepted")
-            getattr(ref, REF_CALL[tag])(name, v)
-        return emitted_fault(r.headerlist, ref.d)
     return q
 
 
@@ -338,7 +346,7 @@ KINDS = (
 PLAIN_KINDS = ("int", "bool", "none", "float")      # the others carry the symbolic text s
 
 
-def make_types(tag, n, digits, labels):
+def make_types(tag, n, digits, labels, olds=()):
     def q(k: int, i: int, s: str):
         label, build = _nth(KINDS, k)
         assume(label in labels)
@@ -349,16 +357,9 @@ def make_types(tag, n, digits, labels):
             assume(len(s) <= n)
             bad, _ = scan(s)
         value, text = build(i, s)
-        r, name, exc = offer(tag, value)
-        if exc is not None:
-            cover("refused")
-            return leak_fault(r)
-        cover("accepted-" + label)
-        if text is None:        # foreign type let through: whatever is emitted must still be safe
-            return emitted_fault(r.headerlist, {})
-        if text is s and bad:
-            return "%s accepted a %s whose text is %r" % (tag, label, s)
-        return emitted_fault(r.headerlist, {name: [text]})
+        r, name, exc = offer(tag, value, olds)
+        cover("refused" if exc is not None else "accepted-" + label)
+        return verdict(tag, olds, r, name, exc, text, bad)
     return q
 
 
@@ -543,14 +544,15 @@ MULTI_SHAPES = ("response-append", "raise-httpresponse-pairs")
 DEEP_SHAPES = ("response-setitem", "raise-httperror-kw", "raise-httpresponse-pairs")   # longer values x status, thorough
 
 
-def make_wsgi_value(shape, n, statuses):
+def make_wsgi_value(shape, n, statuses, olds=()):
+    """olds (MULTI_SHAPES only): clean values the same handler gives the header before the symbolic one"""
     name, act = SHAPES[shape]
 
     def q(v: str, status: int):
         assume(len(v) <= n)
         status = _member(statuses, status)
         bad, wide = scan(v)
-        calls, refused = serve(lambda app: act(app, status, [v]))
+        calls, refused = serve(lambda app: act(app, status, list(olds) + [v]))
         if len(calls) != 1:
             return "start_response called %d times" % len(calls)
         headers = calls[0][1]
@@ -565,7 +567,7 @@ def make_wsgi_value(shape, n, statuses):
         cover("accepted-non-ascii" if wide else "accepted")
         if name in FORBIDDEN.get(status, ()):
             return emitted_fault(headers, {name: []})
-        return emitted_fault(headers, {name: [v]})
+        return emitted_fault(headers, {name: list(olds) + [v]})
     return q
 
 
@@ -618,6 +620,17 @@ def _name_groups():
     return {"g1": banned[0:3] + ok[0:2], "g2": banned[3:6] + ok[2:4], "g3": banned[6:8] + ok[4:5] + [NAME]}
 
 
+_SETTERS = ("setitem", "append", "setdefault", "attr-content_type", "attr-content_length", "attr-expires")
+_TYPED = tuple(t for t in PRESTATE_ENTRIES if t != "attr-expires")      # see OUTSIDE for the expires writer
+# which entry points get the pre-state queries, per tier (ctor-dict cannot give one name several values)
+PRESTATE_VALUE = {
+    "quick": {"existing": _SETTERS, "list2": PRESTATE_ENTRIES, "list3": ("append", "ctor-pairs")},
+    "thorough": {"existing": _SETTERS, "list2": PRESTATE_ENTRIES, "list3": PRESTATE_ENTRIES},
+}
+PRESTATE_TYPES = {
+    "quick": {"list2": ("setitem", "append", "ctor-pairs", "ctor-kw"), "list3": ("append", "ctor-pairs")},
+    "thorough": {"list2": _TYPED, "list3": ("append", "setdefault", "ctor-pairs", "ctor-kw")},
+}
 LONGEST = ("value/setitem", "value/httperror-kw", "sequence/append-append", "value-ctl/setitem")
 
 
@@ -631,33 +644,40 @@ def queries(tier):
                      "entry point %s; value = fully symbolic str, len <= %d (%s)" % (tag, nv, anytext),
                      timeout=150 if not T else 1100, expect_cover=["rejected", "accepted", "accepted-non-ascii"],
                      family="value", config=tag))
-    for tag in REF_CALL:
-        nv = 3 if T and tag in ("append", "setdefault") else 2
-        out.append(Q("value-existing/%s" % tag, make_value_existing(tag, nv),
-                     "entry point %s on a header that already holds one value; value = fully symbolic str, len <= %d (%s)"
-                     % (tag, nv, anytext), timeout=100 if not T else 300,
-                     expect_cover=["rejected", "accepted", "accepted-non-ascii"], family="value", config=tag))
+    # the same entry points on a header that already holds one value / a list of two / a list of three values
+    for state, olds in OLDS.items():
+        for tag in PRESTATE_VALUE[tier][state]:
+            nv = 3 if T and tag in ("append", "setdefault", "ctor-pairs") and state != "list3" else 2
+            out.append(Q("value-%s/%s" % (state, tag), make_value(tag, nv, olds),
+                         "entry point %s on a header that already holds %r; value = fully symbolic str, len <= %d (%s)"
+                         % (tag, olds, nv, anytext), timeout=100 if not T else 300,
+                         expect_cover=["rejected", "accepted", "accepted-non-ascii"], family="value",
+                         config={"entry": tag, "holds": list(olds)}))
     nc = 5 if not T else 6
     out.append(Q("value-ctl/setitem", make_value_ctl("setitem", nc),
                  "entry point setitem; value = fully symbolic str (any code point), len <= %d, CR, LF or NUL at one or more positions "
                  "(refusal only: longer than value/setitem because the accepted branch is not explored)" % nc,
                  timeout=200 if not T else 900, expect_cover=["rejected"], family="value", config="setitem"))
     nt, nd = (1, 9) if not T else (2, 18)
+    labels = [k for k, _ in KINDS]
+    plain_cover = ["refused", "accepted-int", "accepted-bool", "accepted-none", "accepted-float", "accepted-int-subclass-with-str"]
     for tag in ENTRIES:
         if tag == "attr-expires":
             continue        # its writer converts non-str values before the guard (OUTSIDE)
-        # setdefault hands a list through unguarded (genuine defect, see types/setdefault-list): kept apart so that
-        # the other kinds of that entry point are still decided
-        labels = [k for k, _ in KINDS if not (tag == "setdefault" and k == "list")]
         out.append(Q("types/%s" % tag, make_types(tag, nt, nd, labels),
                      "entry point %s; value kind k in %s; int symbolic |i| < 10**%d, bool symbolic, float from %r, text inside "
                      "foreign objects symbolic len <= %d (%s)" % (tag, labels, nd, FLOAT_TEXTS, nt, anytext),
-                     timeout=100 if not T else 400, expect_cover=["refused", "accepted-int", "accepted-bool", "accepted-none",
-                                                                  "accepted-float", "accepted-int-subclass-with-str"],
-                     family="types", config=tag))
+                     timeout=100 if not T else 400, expect_cover=plain_cover, family="types", config=tag))
     out.append(Q("types/setdefault-list", make_types("setdefault", 2, 1, ["list"]),
-                 "headers.setdefault(name, [s]) with s symbolic str len <= 2 (%s)" % anytext, timeout=100,
+                 "headers.setdefault(name, [s]) with s symbolic str len <= 2 (%s) - regression query for the unguarded list "
+                 "(fixed in 890fd37)" % anytext, timeout=100, expect_cover=["refused", "accepted-list"],
                  family="types", config="setdefault"))
+    for state in ("list2", "list3"):
+        for tag in PRESTATE_TYPES[tier][state]:
+            out.append(Q("types-%s/%s" % (state, tag), make_types(tag, nt, nd, labels, OLDS[state]),
+                         "as types/%s on a header that already holds %r (a non-str value added to a list must come out as str)"
+                         % (tag, OLDS[state]), timeout=100 if not T else 400, expect_cover=plain_cover, family="types",
+                         config={"entry": tag, "holds": list(OLDS[state])}))
     for tag, ops in SEQUENCES.items():
         if not T and tag == "setitem-setitem-append":
             continue
@@ -698,6 +718,10 @@ def queries(tier):
                      timeout=150 if not T else 600, expect_cover=["rejected", "accepted", "accepted-non-ascii"],
                      family="wsgi-value", config=shape))
     for shape in MULTI_SHAPES:
+        out.append(Q("wsgi-value-list2/%s" % shape, make_wsgi_value(shape, nw, (200,), OLDS["list2"]),
+                     "as wsgi-value/%s, the handler first gives the header the values %r the same way" % (shape, OLDS["list2"]),
+                     timeout=150 if not T else 600, expect_cover=["rejected", "accepted", "accepted-non-ascii"],
+                     family="wsgi-value", config=shape))
         out.append(Q("wsgi-multi/%s" % shape, make_wsgi_multi(shape, 1),
                      "GET through Ombott.__call__, two symbolic values (len <= 1, no CR/LF/NUL) for one header via %s: "
                      "start_response sees both, in order" % shape, timeout=150,
@@ -723,18 +747,22 @@ def selftest(tier):
     for tag in ENTRIES:
         for v in ("", "a", "\r\n", "a\n", "\x00", "é", "€", "\U0001f600", "\x7f\x0b"):
             cases.append(("value/%s" % tag, {"v": v}, "ok"))
-    for tag in REF_CALL:
+    for qid in ("value-existing/append", "value-existing/setdefault", "value-list2/append", "value-list2/ctor-pairs",
+                "value-list2/httperror-kw", "value-list3/append", "value-list3/ctor-pairs"):
         for v in ("b", "b\r", "ÿ"):
-            cases.append(("value-existing/%s" % tag, {"v": v}, "ok"))
+            cases.append((qid, {"v": v}, "ok"))
     for k in range(len(KINDS)):
-        if KINDS[k][0] != "list":
-            cases.append(("types/setdefault", {"k": k, "i": 1, "s": "\n"}, "ok"))
+        cases.append(("types/setdefault", {"k": k, "i": 1, "s": "\n"}, "ok"))
+        cases.append(("types-list2/append", {"k": k, "i": 1, "s": "\r"}, "ok"))
         cases.append(("types/setitem", {"k": k, "i": -3, "s": "é"}, "rejected" if KINDS[k][0] == "float" else "ok"))
     cases += [
         ("value/setitem", {"v": "\ud800"}, "rejected"),            # not Unicode text: outside the claim
         ("value-ctl/setitem", {"v": "\ud800\r"}, "ok"),
         ("value-ctl/setitem", {"v": "abc"}, "rejected"),
         ("types/setdefault-list", {"k": 5, "i": 0, "s": "ab"}, "ok"),
+        ("types/setdefault-list", {"k": 5, "i": 0, "s": "a\n"}, "ok"),
+        ("wsgi-value-list2/response-append", {"v": "\n", "status": 200}, "ok"),
+        ("wsgi-value-list2/raise-httpresponse-pairs", {"v": "é", "status": 200}, "ok"),
         ("sequence/append-append", {"v1": "a", "v2": "é", "v3": ""}, "ok"),
         ("sequence/append-setitem", {"v1": "a", "v2": "b", "v3": ""}, "ok"),
         ("blacklist/g3/status-last", {"status": 304, "b0": True, "b1": True, "b2": True, "b3": True, "b4": False}, "ok"),
